@@ -511,6 +511,9 @@ structure Circ where
   now : Time := 0
   phase : Phase := .idle
   startOk : Bool := false
+  /-- the blocks of the model were started (false: a `start()` failed before any of them was started), i.e. the
+      clean-up calls their `stop()` -/
+  started : Bool := true
   deriving Repr, Inhabited
 
 inductive StartMode where
@@ -801,11 +804,15 @@ def Circ.stopBegin (c : Circ) (t : Time) : Circ :=
 /-- the end of the clean-up at time `t`.  `complete = true`: `_stop_sblocks` ran to its end, every block got
     its `stop()` (FSM timers cancelled).  `complete = false`: the simulation task was cancelled while it
     awaited an asynchronous clean-up (a cancelled `shutdown()`, a second Ctrl-C): the remaining blocks are
-    not stopped.  The storage is not touched either way. -/
+    not stopped.  The storage is not touched either way; a stopped FSM does not save any more. -/
 def Circ.stopEnd (c : Circ) (t : Time) (complete : Bool) : Circ :=
   if c.phase != .stopping && c.phase != .stoppingF then c else
   { c with now := t, phase := .stopped,
-           blocks := if complete then c.blocks.map fun b => { b with dyn := { b.dyn with timer := none } }
+           blocks := if complete then c.blocks.map fun b =>
+                       -- `FSM.stop()` (repair /repo: finding C06-late-event-overwrites-saved-timer): the timer is
+                       -- cancelled and the block stops saving - what the simulator saved before stays
+                       { b with dyn := { b.dyn with timer := none },
+                                persistent := match b.kind with | .fsm _ => b.persistent && !c.started | _ => b.persistent }
                      else c.blocks }
 
 /-- a stop whose clean-up takes no time -/
